@@ -14,6 +14,8 @@
               bodies of em/strong are sequences of SIMPLE atoms (w, lex, code); link text and image
               descriptions may also contain hard breaks.
 
+   Further variants: pad 0 of a list = every non-empty item starts with a blank line (marker alone,
+   content from the next line); gap 1 of a block = two blank lines before it instead of one.
    Syntactic VARIANTS are attributes of the construct they belong to: emphasis character (`*`/`_`),
    bullet (`-`/`+`/`*`), ordered delimiter (`.`/`)`), fence character and length, indentation 0-3 of
    a block start, spaces after a list marker, blockquote marker with/without space, ATX closing
@@ -60,6 +62,7 @@ CONSTANTS MaxBlocks,    \* top-level blocks
           MaxNodes,     \* blocks in a document (leaves + containers)
           MaxAtoms,     \* atoms in a document (all paragraphs and headings together)
           AtomPool, JoinSet, LeafPool, Indents, QuoteShapes, ListShapes, AtxShapes, Trails,
+          Gaps,         \* extra blank lines written before a block that is not the first of its container (subset of {0, 1})
           KindWheel,    \* sequence of block kinds "para" "atx" "leaf" "quote" "list", with multiplicity
           AtomWheel     \* sequence of atom kinds, with multiplicity
 
@@ -170,7 +173,7 @@ FlankOK(q) ==
 -----------------------------------------------------------------------------
 (* blocks: one record shape *)
 B0 == [k |-> "", ind |-> 0, c |-> "", n |-> 0, p |-> 0, s |-> "", tag |-> "", inl |-> <<>>,
-       body |-> <<>>, loose |-> TRUE, items |-> <<>>]
+       body |-> <<>>, loose |-> TRUE, items |-> <<>>, gap |-> 0]
 Para(ind, inl)               == [B0 EXCEPT !.k = "para", !.ind = ind, !.inl = inl]
 Atx(ind, lvl, closer, inl)   == [B0 EXCEPT !.k = "atx", !.ind = ind, !.n = lvl, !.s = closer, !.inl = inl]
 Fence(ind, ch, n, info, tag, body) == [B0 EXCEPT !.k = "fence", !.ind = ind, !.c = ch, !.n = n, !.s = info, !.tag = tag, !.body = body]
@@ -191,15 +194,17 @@ RECURSIVE WBlocks(_)
 RECURSIVE WBlock(_)
 RECURSIVE WItems(_, _)
 IndentLines(n, lines) == [i \in DOMAIN lines |-> IF lines[i] = "" THEN "" ELSE Spaces(n) \o lines[i]]
-WBlocks(bs) ==
+WBlocks(bs) ==       \* siblings are separated by one blank line, two if the next one has gap = 1
   IF bs = <<>> THEN <<>>
   ELSE IF Len(bs) = 1 THEN WBlock(bs[1])
-  ELSE WBlock(bs[1]) \o <<"">> \o WBlocks(Tail(bs))
+  ELSE WBlock(bs[1]) \o <<"">> \o (IF bs[2].gap = 1 THEN <<"">> ELSE <<>>) \o WBlocks(Tail(bs))
 WItems(b, i) ==
   LET inner == WBlocks(b.items[i])
       m     == Marker(b, i)
       w     == Len(m) + b.p
       me    == IF inner = <<>> THEN <<Spaces(b.ind) \o m>>
+               ELSE IF b.p = 0      \* the item starts with a blank line: marker alone, content from the next line
+                    THEN <<Spaces(b.ind) \o m>> \o IndentLines(b.ind + Len(m) + 1, inner)
                ELSE <<Spaces(b.ind) \o m \o Spaces(b.p) \o inner[1]>> \o IndentLines(b.ind + w, Tail(inner))
   IN IF i = Len(b.items) THEN me
      ELSE me \o (IF b.loose THEN <<"">> ELSE <<>>) \o WItems(b, i + 1)
@@ -225,8 +230,8 @@ RECURSIVE LCBlock(_)
 RECURSIVE LCItems(_, _)
 LCBlocks(bs) == IF bs = <<>> THEN 0
                 ELSE IF Len(bs) = 1 THEN LCBlock(bs[1])
-                ELSE LCBlock(bs[1]) + 1 + LCBlocks(Tail(bs))
-LCItems(b, i) == LET me == IF b.items[i] = <<>> THEN 1 ELSE LCBlocks(b.items[i])
+                ELSE LCBlock(bs[1]) + 1 + bs[2].gap + LCBlocks(Tail(bs))
+LCItems(b, i) == LET me == IF b.items[i] = <<>> THEN 1 ELSE LCBlocks(b.items[i]) + (IF b.p = 0 THEN 1 ELSE 0)
                  IN IF i = Len(b.items) THEN me
                     ELSE me + (IF b.loose THEN 1 ELSE 0) + LCItems(b, i + 1)
 LCBlock(b) ==
@@ -279,7 +284,7 @@ EraseBlock(b) ==
     [] b.k = "quote" -> [b EXCEPT !.ind = 0, !.s = "> ", !.items = <<Erase(b.items[1])>>]
     [] b.k = "ulist" -> [b EXCEPT !.ind = 0, !.c = "-", !.p = 3, !.items = [i \in DOMAIN b.items |-> Erase(b.items[i])]]
     [] b.k = "olist" -> [b EXCEPT !.ind = 0, !.c = ".", !.p = 2, !.items = [i \in DOMAIN b.items |-> Erase(b.items[i])]]
-Erase(bs) == [i \in DOMAIN bs |-> EraseBlock(bs[i])]
+Erase(bs) == [i \in DOMAIN bs |-> [EraseBlock(bs[i]) EXCEPT !.gap = 0]]
 
 RECURSIVE DepthOf(_)
 DepthOfBlock(b) == IF b.k \in ContainerKinds
@@ -308,8 +313,11 @@ OKChild(ctx, first, prev, b) ==
   /\ (ctx.k = "quote" /\ ctx.s = ">") =>        \* ">" swallows one space of the content
         /\ b.ind = 0
         /\ b.k \in LeafKinds \ {"icode"}
+  /\ first => b.gap = 0
   /\ prev.k \in ListKinds =>
-        /\ b.ind = 0                            \* an indented block would continue the item
+        \* an indented block would continue the last item -- unless that item is empty: an item
+        \* can begin with at most one blank line, so the blank line after the bare marker ends it
+        /\ (b.ind = 0 \/ (b.k = "para" /\ prev.items[Len(prev.items)] = <<>>))
         /\ b.k # "icode"
         /\ (b.k = prev.k => b.c # prev.c)       \* same marker: one list
   /\ (prev.k = "icode" => b.k # "icode")        \* one code block
@@ -381,10 +389,10 @@ Choose == /\ Idle /\ want = ""
           /\ UNCHANGED <<stack, cur, wantA, nodes, atoms, fin>>
 
 StartPara == /\ Idle /\ want = "para"
-             /\ \E ind \in Indents, n \in 1..MaxInl :
-                  /\ CanPlace(Para(ind, <<>>))
+             /\ \E ind \in Indents, n \in 1..MaxInl, g \in Gaps :
+                  /\ CanPlace([Para(ind, <<>>) EXCEPT !.gap = g])
                   /\ atoms + n <= MaxAtoms
-                  /\ cur' = [blk |-> Para(ind, <<>>), left |-> n]
+                  /\ cur' = [blk |-> [Para(ind, <<>>) EXCEPT !.gap = g], left |-> n]
                   /\ atoms' = atoms + n
              /\ want' = ""
              /\ UNCHANGED <<stack, wantA, nodes, fin>>
@@ -430,7 +438,8 @@ AddAtom == /\ Building /\ cur.blk.k # "none" /\ wantA # ""
 
 AddLeaf == /\ Idle /\ want = "leaf"
            /\ \E b0 \in LeafPool, ind \in Indents :
-                LET b == IF b0.k = "icode" THEN b0 ELSE [b0 EXCEPT !.ind = ind] IN   \* icode has no indentation of its own
+                \E g \in Gaps :
+                LET b == [(IF b0.k = "icode" THEN b0 ELSE [b0 EXCEPT !.ind = ind]) EXCEPT !.gap = g] IN   \* icode has no indentation of its own
                 /\ CanPlace(b)
                 /\ stack' = Settle(AddKid(stack, b))
                 /\ nodes' = nodes + 1
@@ -438,8 +447,8 @@ AddLeaf == /\ Idle /\ want = "leaf"
            /\ UNCHANGED <<cur, wantA, atoms, fin>>
 
 OpenQuote == /\ Idle /\ want = "quote" /\ Depth < MaxDepth
-             /\ \E sh \in QuoteShapes, n \in 0..MaxKids :
-                  LET b == Quote(sh.ind, sh.marker, <<>>) IN
+             /\ \E sh \in QuoteShapes, n \in 0..MaxKids, g \in Gaps :
+                  LET b == [Quote(sh.ind, sh.marker, <<>>) EXCEPT !.gap = g] IN
                   /\ CanPlace(b)
                   /\ nodes + Remaining(stack) + n <= MaxNodes
                   /\ stack' = Settle(Append(stack, Frame(b, n, <<>>)))
@@ -451,9 +460,9 @@ RECURSIVE Plans(_)
 Plans(n) == IF n = 0 THEN {<<>>} ELSE {<<k>> \o p : k \in 0..MaxKids, p \in Plans(n - 1)}
 OpenList == /\ Idle /\ want = "list" /\ Depth < MaxDepth
             /\ \E sh \in ListShapes, ni \in 1..MaxItems :
-                 \E plan \in Plans(ni) :
-                   LET b == IF sh.k = "ulist" THEN UList(sh.ind, sh.c, sh.p, sh.loose, <<>>)
-                                              ELSE OList(sh.ind, sh.n, sh.c, sh.p, sh.loose, <<>>) IN
+                 \E plan \in Plans(ni), g \in Gaps :
+                   LET b == [(IF sh.k = "ulist" THEN UList(sh.ind, sh.c, sh.p, sh.loose, <<>>)
+                                               ELSE OList(sh.ind, sh.n, sh.c, sh.p, sh.loose, <<>>)) EXCEPT !.gap = g] IN
                    /\ CanPlace(b)
                    /\ nodes + Remaining(stack) + SumSeq(plan) <= MaxNodes
                    /\ stack' = Settle(Append(stack, Frame(b, Head(plan), Tail(plan))))
